@@ -189,6 +189,9 @@ var c15Ranges = core.Mon(c15, "ranges-and-reparse", func(w *core.W, c *ParseCase
 			w.Count("identifier_texts_checked")
 			// (trailing trivia inside the range would still satisfy the statement)
 			q := id.End()
+			if p > q {
+				p = q // a multi-byte blank straddling the end of a (wrong) range
+			}
 			for q > p {
 				r, sz := utf8.DecodeLastRune(c.Src[p:q])
 				if !(ref.IsSpace(r) || ref.IsLineBreak(r) || ref.IsSpaceOpen(r)) {
